@@ -97,6 +97,8 @@ def must_fail(phrase, setting, enabled=None):
         f = setting[6:].split(b"$", 1)[0]
         if f[:1] == b"-" and f[1:].isdigit():
             return "negative-cost"
+        if f == b"" and b"$" in setting[6:]:
+            return "empty-cost"             # "$sha1$$salt": no iteration count at all
         if f.isdigit() and int(f) > 2 ** 32 - 1:
             return "cost-above-maximum"
     return None
